@@ -31,7 +31,7 @@ ASSUMPTIONS = [
     'not violated',
     'asynchronous generators are driven to exhaustion (all their gates are eventually released)',
 ]
-REQUIRED = {'scenarios': 1500, 'deliveries': 1500, 'scenarios_two_pending': 500, 'scenarios_plain_while_pending': 300, 'rx_scenarios': 200, 'rxlazy_scenarios': 200, 'rxgen_scenarios': 100, 'generator_tails_completed': 50,
+REQUIRED = {'scenarios': 1500, 'deliveries': 1500, 'scenarios_two_pending': 500, 'scenarios_plain_while_pending': 300, 'rx_scenarios': 200, 'rxlazy_scenarios': 200, 'rxgen_scenarios': 100, 'generator_tails_completed': 50, 'reassign_scenarios': 10, 'cancellations_swallowed_by_the_coroutine': 30,
             'faults_fired': 300}
 DEVMODE = False
 
@@ -138,6 +138,12 @@ def enumerate_scenarios(P):
                 continue
             for watched in (False, True):
                 out.append(dict(target='rxgen', n=n, run_between=(), order=order, watched=watched, tail=True))
+    # a watcher of the parameter that reacts to the FIRST item of an async generator by assigning something new (the generator
+    # has its next item ready without awaiting again): nothing of the superseded generator arrives after that
+    for new in ('coro', 'plain', 'gen'):
+        for items in (2, 3):
+            for late_first in (False, True):
+                out.append(dict(target='reassign', new=new, items=items, late_first=late_first))
     # lazily evaluated pipeline (no watcher forces re-evaluation) with a root and a non-root input
     for n in range(1, tier_n + 1):
         for ins in itertools.product(['root', 'arg'], repeat=n):
@@ -146,6 +152,8 @@ def enumerate_scenarios(P):
                     for watched in (False, True):
                         for stage2 in (None, 'sync', 'coro'):
                             out.append(dict(target='rxlazy', n=n, inputs=ins, reads=reads, order=order, watched=watched, stage2=stage2))
+    # the same histories with coroutines that swallow their cancellation and return a value all the same
+    out += [dict(s_, stubborn=True) for s_ in out if s_['target'] == 'param' and 'coro' in s_['ops'] and len(s_['ops']) <= 2 and not s_.get('poison')]
     return out
 
 
@@ -171,6 +179,8 @@ def run_case(idx, rng, P, rep):
         res = loop.run_until_complete(run_rxlazy(sc, rep))
     elif sc['target'] == 'rxgen':
         res = loop.run_until_complete(run_rxgen(sc, rep))
+    elif sc['target'] == 'reassign':
+        res = loop.run_until_complete(run_reassign(sc, rep))
     else:
         res = loop.run_until_complete(run_rx(sc, rep))
     # cancel whatever is left so that scenarios do not leak into each other
@@ -211,7 +221,14 @@ async def run_param(sc, rep):
 
     def mk_coro(i):
         async def fn():
-            return await gates[(i, 0)]
+            if not sc.get('stubborn'):
+                return await gates[(i, 0)]
+            try:
+                return await gates[(i, 0)]
+            except asyncio.CancelledError:
+                # (a coroutine that deals with its cancellation itself and still returns something)
+                rep.count('cancellations_swallowed_by_the_coroutine')
+                return ('res', i, 0)
         return fn
 
     def mk_gen(i):
@@ -386,6 +403,60 @@ async def run_rxlazy(sc, rep):
                       f'after all evaluations completed the expression holds {final!r}, its inputs now give {exp!r} '
                       f'(evaluations started for {started})', case=desc, trace=[repr(x) for x in seen])
     return len(started) >= 2
+
+
+async def run_reassign(sc, rep):
+    param = _st['param']
+    Tgt = _st['Tgt']
+    loop = asyncio.get_running_loop()
+    t = Tgt()
+    g0, g1 = loop.create_future(), loop.create_future()
+    seen = []
+    after = []
+
+    async def gen():
+        await g0
+        for k in range(sc['items']):
+            yield ('item', k)           # (no await between the items)
+
+    async def later():
+        return await g1
+
+    async def later_gen():
+        yield await g1
+
+    def on_x(e):
+        seen.append(e.new)
+        if e.new == ('item', 0):
+            if sc['new'] == 'coro':
+                t.x = later
+            elif sc['new'] == 'gen':
+                t.x = later_gen
+            else:
+                t.x = ('plain', 'from-watcher')
+            after.append(len(seen))
+    t.param.watch(on_x, 'x')
+    t.x = gen
+    await turns()
+    if sc['late_first']:
+        g1.set_result(('late', 1))
+        await turns()
+    g0.set_result(None)
+    await turns(8)
+    if not g1.done():
+        g1.set_result(('late', 1))
+    await turns(8)
+    rep.count('reassign_scenarios')
+    desc = dict(sc)
+    stale = [v for v in seen[after[0]:] if isinstance(v, tuple) and v and v[0] == 'item'] if after else []
+    if stale:
+        rep.violation('C10/stale-result-applied-after-newer-assignment/next-item-of-superseded-generator',
+                      f'a watcher answered the first item of an async generator by assigning {sc["new"]}; afterwards the parameter was still '
+                      f'given {stale} by the superseded generator (seen: {seen})', case=desc)
+    exp = ('plain', 'from-watcher') if sc['new'] == 'plain' else ('late', 1)
+    if t.x != exp:
+        rep.violation('C10/final-value/reassigned-from-watcher', f'final value {t.x!r}, expected {exp!r} (seen: {seen})', case=desc)
+    return True
 
 
 async def run_rxgen(sc, rep):
